@@ -3,6 +3,7 @@ package ischema
 import (
 	"fmt"
 	"sort"
+	"sync/atomic"
 
 	"github.com/jsightapi/jsight-schema-core/bytes"
 	"github.com/jsightapi/jsight-schema-core/errs"
@@ -67,9 +68,15 @@ func (s *ISchema) AddNamedType(name string, typ *ISchema, rootFile *fs.File, beg
 	s.addType(name, typ, rootFile, begin)
 }
 
+// unnamedTypeSeq numbers the unnamed TYPEs of the process.
+var unnamedTypeSeq uint64
+
 // AddUnnamedType Adds an unnamed TYPE to the SCHEMA. Returns a unique name for the added TYPE.
+// The name is a zero-padded sequence number, so the sorted order of the names
+// (see TypeNames) is the order in which the TYPEs were met in the source, and
+// not the order of their memory addresses, which differs from run to run.
 func (s *ISchema) AddUnnamedType(typ *ISchema, rootFile *fs.File, begin bytes.Index) string {
-	name := fmt.Sprintf("#%p", typ)
+	name := fmt.Sprintf("#%020d", atomic.AddUint64(&unnamedTypeSeq, 1))
 	s.addType(name, typ, rootFile, begin)
 	return name
 }
